@@ -166,8 +166,11 @@ class Loops(object):
             g.update(extra or {})
             return g
 
+        entry = (ctx.snapshot_heap(), dict(fr.locals), dict(ctx.attr))
+
         def check_inv(tag, g):
             sfr = self.engine.spec_frame(fr, g)
+            sfr.entry = entry
             for j, inv in enumerate(spec.inv):
                 val = self.engine.eval_spec(ctx, sfr, inv)
                 ctx.oblige('%s/%s/%s[%d]' % (fname, lid, tag, j), val, 'K', node,
@@ -175,6 +178,7 @@ class Loops(object):
 
         def assume_inv(g):
             sfr = self.engine.spec_frame(fr, g)
+            sfr.entry = entry
             for inv in spec.inv:
                 ctx.assume(self.engine.eval_spec(ctx, sfr, inv))
 
@@ -269,6 +273,9 @@ class Loops(object):
             x = Z.fresh('_x', et.zsort)
             ctx.assume(z == z3.Concat(done, z3.Unit(x), rest))
             idx = z3.Length(done)
+            # redundant consequences, stated to spare the sequence solver the derivation
+            ctx.assume(z[idx] == x)
+            ctx.assume(z3.Length(z) == idx + 1 + z3.Length(rest))
             g = ghosts(VSeq(done, et), idx, VSeq(rest, et))
             inv_e = et.inv(x)
             if inv_e is not None:
@@ -345,7 +352,8 @@ class Loops(object):
             raise
         ctx.loop_guard.pop()
         for k, a in ctx.attr.items():
-            if (k not in attr_before or not attr_before[k].eq(a)) and k.split('.')[-1] not in spec.havoc_attrs:
+            changed = (not attr_before[k].eq(a)) if k in attr_before else (not a.eq(Z.const('H0:%s' % k, a.sort())))
+            if changed and k.split('.')[-1] not in spec.havoc_attrs:
                 raise Unsupported('loop body writes attribute %r of an opaque object; list it in '
                                   'havoc_attrs' % k, node)
         check_inv('preserve', g2)
@@ -458,8 +466,10 @@ class Loops(object):
         finally:
             ctx.no_branch -= 1
         del ctx.pc[saved_pc:]
-        if not (isinstance(elt, VTuple) and len(elt.items) == 2 and elt.items[0] is kv and elt.items[1] is vv):
-            raise Unsupported('comprehension over dict items that is not a key filter', node)
+        def same(a, b):
+            return a is b or (hasattr(a, 'z') and hasattr(b, 'z') and a.z.sort() == b.z.sort() and Z.simp(a.z).eq(Z.simp(b.z)))
+        if not (isinstance(elt, VTuple) and len(elt.items) == 2 and same(elt.items[0], kv) and same(elt.items[1], vv)):
+            raise Unsupported('comprehension over dict items that is not a key/value filter', node)
         ndom = z3.Lambda([kx], z3.And(z3.IsMember(kx, dom), cond))
         if kind == 'dict':
             return ctx.alloc(HDict(dom=ndom, arr=arr, kt=kt, vt=vt))
